@@ -420,6 +420,13 @@ def r3(cx):
     cx.ob("C11.R3", "patch:written-back", len(upd) == 1 and all(any(f.can_reach(bi, upd[0].b) for bi, b in enumerate(f.blocks) for s in b["s"]
                                                               if s[0] == "A" and s[1][1] and isinstance(s[1][1][-1], list) and s[1][1][-1][2] == k) for k in patched),
           "push_task_pri writes the patched process row back (update) after patching %s" % sorted(patched), f.loc())
+    # ... for every task that is stored, not only for some (env and err change from any task: a script in a step writes
+    # `$env.x`, an act fails): nothing but `save` and the success of the row lookup decides whether the row is patched
+    if len(upd) == 1:
+        from rules.c01 import exact_guards
+        exact_guards(cx, "C11.R3", "patch:every-stored-task", f, upd[0].b,
+                     required=[r"^save=True$"], allowed=[r"^match\(.*branch.*\)=Continue$"],
+                     what="the process row is patched whenever a task is stored (whatever task it is)", loc=upd[0].loc)
     # cells of Process written after start, and the row field each maps to
     cells = {"state": "state", "end_time": "end_time", "err": "err", "env": "env"}
     writers = {}
